@@ -69,6 +69,8 @@ def _case(draw):
             "nt": draw(st.integers(100, 300)), "dt": draw(st.sampled_from([1.0, 2.0])),
             "u_make": draw(st.sampled_from(UNITS)), "u_read": draw(st.sampled_from(UNITS)),
             "self_add": draw(st.sampled_from([False, False, False, True])),
+            # the additions themselves may be evaluated inside a units context
+            "u_add": draw(st.sampled_from([None, None, "1/cm", "THz", "eV"])),
             "value_tail": draw(st.booleans()) if fam == "cf" else False,
             "t_mismatch": draw(st.sampled_from([None, None, None, 0, 1])) if fam == "cf" and n >= 2 else None}
 
@@ -144,7 +146,13 @@ def check_case(case, ctx):
             return lo + ro, li + ri, True
         lo += ro
         return lo, li + ri, True
-    ok, r = guarded(ctx, "addition", lambda: ev(case["tree"]), fam, types=types)
+    def evaluate():
+        if case.get("u_add"):
+            with qr.energy_units(case["u_add"]):
+                return ev(case["tree"])
+        return ev(case["tree"])
+    ctx.label("add-in-context" if case.get("u_add") else "add-outside")
+    ok, r = guarded(ctx, "addition", evaluate, fam, types=types)
     if not ok:
         return
     total, leaves, _ = r
@@ -172,7 +180,7 @@ def check_case(case, ctx):
         wlam += 0.0005
         ctx.label("value-tail")
     ctx.mark_nontrivial(n >= 3 and len(types) >= 2 and state["composite_left"])
-    where = fam + "/" + "+".join(types)
+    where = fam + "/" + "+".join(types) + ("/in-context" if case.get("u_add") else "")
     sc = max(1e-30, float(numpy.max(numpy.abs(want))))
     ctx.close("sum-data", numpy.array(total.data), want, rtol=1e-9, scale=sc, where=where, n=n)
     ctx.close("sum-reorganisation-energy", total.lamb, wlam, rtol=1e-7, where=where, n=n)
